@@ -117,6 +117,13 @@ def run(prop, seed, budget, ctx):
             if state["sched"]: state["sched"].point()
             return super().setdefault(k, v)
 
+    # the sequential analysis on generated class graphs (K: the memo = the Lean model's; P: every answer exact, cold first uses return)
+    import rec_graph
+    gf_, gn_, gd_, gh_ = rec_graph.run_part(seed, budget)
+    failures += gf_; distinct |= gd_; evaluations += gn_
+    for k_, v_ in gh_.items(): hist[k_] += v_
+    for f in gf_: hist["P:" + f["why"][0].split(":")[0]] += 1
+
     caches = {}
     orig_rc = recursion.recursion_cache
     def _rc(cls, *rest):
@@ -360,7 +367,9 @@ def run(prop, seed, budget, ctx):
     finally:
         sys.setswitchinterval(old)
     return {"evaluations": evaluations, "distinct_nontrivial": len(distinct),
-            "rule": "schedule replay: 4 generated schedules (80 choices) x fresh instances of 4 class graphs (self-recursive through a list, mutually recursive, "
+            "rule": "sequential analysis: 60 x budget generated graphs of 2-7 dataclasses (fields through Optional / List / Dict), a history of 1-4 is_recursive calls on one memo: "
+                    "the memo = the memo of the Lean model (K), every answer True iff the type reaches itself (P), cold deserialize / serialize / schema of every class return (P); "
+                    "schedule replay: 4 generated schedules (80 choices) x fresh instances of 4 class graphs (self-recursive through a list, mutually recursive, "
                     "recursive through Optional and Dict with three threads, non-recursive), yield points at every read / write of the shared recursion cache; "
                     "schema generation (deserialization / serialization schemas of classes with registered conversions, three threads) under schedules with yield points in a user default_conversion; "
                     "stress: 8 threads behind a barrier, 1 us switch interval, first deserialize / serialize / schema on fresh recursive classes; "
